@@ -25,6 +25,30 @@ prop("C01", level="exploration",
      assumptions=["independent RFC 8259 recogniser drivers/common/rfc8259.hpp", "strict structural compare drivers/common/jvalue.hpp"],
      stages=[dict(name="roundtrip", driver="c01_roundtrip", flagset="asan", quick=250000, thorough=6000000)])
 
+prop("C03", level="exploration",
+     level_text="Differential monitor: each generated input (valid, mutated, truncated; JSON text and CBOR/MessagePack/UBJSON/BSON bytes) is decoded through the reference delivery "
+                "(whole buffer, push visitor) and through stream sources of every/any chunk size, forward-iterator sources, the incremental parser at every single split point, uniform and random "
+                "multi-way splits (each chunk in its own exact-size heap block so over-reads are ASan-visible), pull cursors (walk, read_to, filter view) and staj iterators; event sequences and "
+                "error codes must be identical. Runs under ASan+UBSan.",
+     level_note="Sampled inputs; positions (line/column) are not compared; 'no value produced' is identified with unexpected_eof as json::parse does; maps with non-text keys are not judged "
+                "(readers stringify the key, cursors report the raw item). CSV deliveries are covered by the C18/C05 drivers, not here.",
+     technique="runtime monitoring: differential delivery monitor over recorded event sequences (push visitor vs stream/iterator/incremental/cursor), ASan/UBSan",
+     rule="inputs = dumps of generated values (pretty/compact, CRLF), stress strings on token boundaries, 0-3 random mutations/truncations, every prefix of the stress strings; binary = encodings of "
+          "generated values + byte mutations; distinct = distinct input bytes; every input counts as non-trivial (empty input included once)",
+     assumptions=["the reference delivery is jsoncons' own whole-buffer reader: the oracle is agreement, not absolute correctness (C02/C07 judge that)"],
+     stages=[dict(name="delivery", driver="c03_delivery", flagset="asan", quick=120000, thorough=3000000)])
+
+prop("C06", level="exploration",
+     level_text="Generated data-model values (every integer width boundary, length boundaries 23/24, 255/256, 65535/65536, all tags, NaN/Inf/-0.0, deep and wide containers, repeated strings) are "
+                "encoded by encode_X and by the streaming X_encoder and decoded from bytes/stream/iterator into json and ojson for CBOR, MessagePack, UBJSON and BSON under ASan+UBSan; the result is "
+                "compared with the documented mapping of each format by a strict structural comparer; typed vector<T> round trips for ten element types; CBOR pack_strings and typed arrays on.",
+     level_note="Sampled. Documented lossy mappings are encoded in drivers/c06_binroundtrip.cpp:fdiff (bignums as plain strings in MessagePack/BSON, byte strings as uint8 arrays and uint64>2^63-1 as "
+                "high-precision numbers in UBJSON, half floats may come back as the same number in a wider float); epoch_milli/nano tags and non-document BSON roots are not value-judged.",
+     technique="runtime monitoring: in-process round-trip monitor with format-aware strict structural oracle and value shrinking, ASan/UBSan",
+     rule="value generator DESIGN §2.4 with byte strings, non-finite doubles, half floats and CBOR tags; distinct = distinct (format, typed description); non-trivial = container with >=1 element or non-empty string",
+     assumptions=["documented per-format mappings as transcribed in fdiff()", "strict structural compare"],
+     stages=[dict(name="binrt", driver="c06_binroundtrip", flagset="asan", quick=250000, thorough=6000000)])
+
 prop("C16", level="exploration",
      level_text="Every generated (target, patch) pair and (source, target) pair is executed against the real apply_merge_patch/from_diff for json and ojson under ASan+UBSan and "
                 "judged by an RFC 7386 transcription over an independent value model; held means no mismatch on the pairs explored (counts in evidence).",
